@@ -103,6 +103,22 @@ pub fn vx_update_max_buffering_delays(min_buffer_delay_us: u64, cur: u64, ecu: &
     ensures r <= 0x4000_0000_0000_0000, cur >= min_buffer_delay_us ==> r >= min_buffer_delay_us,
 { unimplemented!() }
 
+// The result expression of the cut closure update_max_buffering_delays (its tail `if recalc_max_buffer_time_us { .. } else { .. }`),
+// extracted as a statement range: the new threshold is `min_buffer_delay_us + <window maximum>` or the unchanged previous value.
+// The window maximum (a block over HashMap::iter().max_by_key(..)) is replaced by a stub returning an arbitrary value of at most
+// 2^61 us (R11; it is 1000 s or one of the observed buffering delays, which are at most a reception time).
+#[verifier::external_body]
+pub fn vx_window_max() -> (r: u64) ensures r <= 0x2000_0000_0000_0000 { unimplemented!() }
+//@ extract src/utils/mod.rs region `if recalc_max_buffer_time_us {` .. `$end` in fn buffer_sort_messages
+//@   sig pub fn threshold_result(recalc_max_buffer_time_us: bool, min_buffer_delay_us: u64, max_buffer_time_us: u64) -> (r: u64)
+//@   sub R11 `min_buffer_delay_us + {__}` => `min_buffer_delay_us + vx_window_max()`
+//@   spec
+//@|    requires min_buffer_delay_us <= 0x2000_0000_0000_0000, min_buffer_delay_us <= max_buffer_time_us <= 0x4000_0000_0000_0000,
+//@|    ensures
+//@|        r >= min_buffer_delay_us, // O:sort.threshold.min (the release threshold is never below the configured minimum delay)
+//@|        r <= 0x4000_0000_0000_0000,
+//@ end
+
 pub open spec fn to_ms(s: Seq<DltMessage>) -> Multiset<DltMessage> { s.to_multiset() }
 pub proof fn lemma_ms_len0(m: Multiset<DltMessage>)
     requires m.len() == 0,
@@ -204,7 +220,7 @@ pub proof fn lemma_release(out: Seq<SortedDltMessage>, hv: Seq<SortedDltMessage>
 //@   sub R12 `outflow(sm.0.m)?` => `outflow.send(sm.0.m)?`
 //@   spec
 //@|    requires
-//@|        min_buffer_delay_us <= 0x4000_0000_0000_0000,
+//@|        min_buffer_delay_us <= 0x2000_0000_0000_0000,
 //@|        forall|i: int| 0 <= i < inflow.rem().len() ==> (#[trigger] inflow.rem()[i]).reception_time_us <= 0x20_0000_0000_0000,
 //@|    ensures
 //@|        // every received message is delivered exactly once and unaltered: the output is a permutation of the input
